@@ -297,12 +297,15 @@ def case_model(rng, tier, i, name=None):
         ce = gains(rng, data['y'].shape[:-1] + (1,), real=True)
     else:
         cs = gains(rng, data['y'].shape[:-1] + (1,))
-    rp = {'fn': 'model', 'model': name, 'data': data, 'init': init, 'cs': cs, 'ce': ce,
+    u = rng.random()
+    start = 'num_classes' if (u < 0.1 and 'source_activity_mask' not in opts) else ('model' if (u < 0.3 and name == 'cacgmm') else 'init')
+    rp = {'fn': 'model', 'model': name, 'data': data, 'init': init, 'cs': cs, 'ce': ce, 'start': start,
+          'np_seed': int(rng.integers(0, 2 ** 31)),
           'opts': {k: v for k, v in opts.items() if k != 'inline_permutation_aligner'},
           'aligner': 'inline_permutation_aligner' in opts, 'iterations': iters, 'pick': int(rng.integers(0, 2 ** 31))}
     sp = max(span(c) for c in (cs, ce) if c is not None)
-    label = 'fit/predict %s K=%d D=%d N=%d lead=%s iters=%d init=%s gains=%s span 1e%.0f opts=%s' % (
-        name, K, D, N, lead, iters, style, '+'.join(s for s, c in (('spatial', cs), ('embedding', ce)) if c is not None), sp,
+    label = 'fit/predict %s K=%d D=%d N=%d lead=%s iters=%d start=%s gains=%s span 1e%.0f opts=%s' % (
+        name, K, D, N, lead, iters, style if start == 'init' else start, '+'.join(s for s, c in (('spatial', cs), ('embedding', ce)) if c is not None), sp,
         mm.describe_options(opts))
     fail, key, coq, nt = eval_model(rp)
     return Case(label, coq=coq, pred_fail=fail, key=key, nontrivial=bool(nt and sp >= 20),
@@ -333,9 +336,19 @@ def eval_model(rp):
     pk = {'source_activity_mask': mask} if (name == 'cacgmm' and mask is not None) else {}
     # after fitting the cBMM parameters come out of scipy.optimize.least_squares (stopping tolerance 1e-8)
     tol = 1e-6 if name == 'cbmm' else 1e-9 * (1 if iters == 1 else 10)
+    start = rp.get('start', 'init')
+
+    def run(dd, first):
+        np.random.seed(rp.get('np_seed', 0))
+        if start == 'num_classes':
+            return mm.fit(name, dd, None, num_classes=K, iterations=iters, **opts)
+        if start == 'model':        # continue from a fitted model (E-step first); the start model is fitted on y
+            return mm.fit(name, dd, first, iterations=iters, **{k: v for k, v in opts.items()})
+        return mm.fit(name, dd, init, iterations=iters, **opts)
     try:
+        m0 = mm.fit(name, data, init, iterations=1, **opts)[0] if start == 'model' else None
         with EighTap() as tap1:
-            m1, tr1 = mm.fit(name, data, init, iterations=iters, **opts)
+            m1, tr1 = run(data, m0)
         p11 = mm.predict(name, m1, data, **pk)
     except EXPLICIT as e:
         # the library refuses this input already without gains (e.g. a class scatter that is numerically singular): outside C04
@@ -345,7 +358,7 @@ def eval_model(rp):
                 'model:raises:%s:%s' % (name, type(e).__name__), None, False)
     try:
         with EighTap() as tap2:
-            m2, tr2 = mm.fit(name, d2, init, iterations=iters, **opts)
+            m2, tr2 = run(d2, m0)
         p22 = mm.predict(name, m2, d2, **pk)
         p12 = mm.predict(name, m1, d2, **pk)
     except Exception as e:
@@ -397,10 +410,10 @@ def eval_model(rp):
             return ('cacgmm: log_likelihood %.12g (y) vs %.12g (c*y, same model) vs %.12g (c*y, refitted)' % (ll1, ll3, ll2),
                     'model:loglik:cacgmm', None, False)
     nt = well and K >= 2 and bool(((p11 > 0.01) & (p11 < 0.99)).any())
-    return None, None, coq_model(rp, name, data, d2, cs, ce, init, opts, m1, m2, tap1, tap2, lead, K, N), nt
+    return None, None, coq_model(rp, name, data, d2, cs, ce, tr1, opts, m1, m2, tap1, tap2, lead, K, N), nt
 
 
-def coq_model(rp, name, data, d2, cs, ce, init, opts, m1, m2, tap1, tap2, lead, K, N):
+def coq_model(rp, name, data, d2, cs, ce, tr1, opts, m1, m2, tap1, tap2, lead, K, N):
     from pb_bss.distribution.complex_angular_central_gaussian import normalize_observation
     r = np.random.default_rng(rp['pick'])
     li = tuple(int(r.integers(0, s)) for s in lead)
@@ -423,7 +436,8 @@ def coq_model(rp, name, data, d2, cs, ce, init, opts, m1, m2, tap1, tap2, lead, 
             srow = np.ones(N) if sal is None else sal[li]
             parts.append('check_cov %s %s %d %d %d %s %s %s %s %s %s %s %s' % (
                 core.cbool(where), core.cbool(opts.get('hermitize', True)), covnorm_code(opts.get('covariance_norm', 'eigenvalue')),
-                D - 1, N, core.fhex(TINY), core.flist(srow), core.flist(init[li][k]), core.flist(np.ones(N)),
+                D - 1, N, core.fhex(TINY), core.flist(srow), core.flist(np.broadcast_to(tr1[0]['affiliation'], (*lead, K, N))[li][k]),
+                core.flist(np.broadcast_to(tr1[0].get('quadratic_form', np.ones((*lead, K, N))), (*lead, K, N))[li][k]),
                 core.cmat(y[li]), core.cmat(cy[li]), core.cmat(c1[li][k]), core.cmat(c2[li][k])))
         if where:
             ny, ncy = normalize_observation(y), normalize_observation(cy)
